@@ -1,23 +1,44 @@
-use amc::util::guard;
-use amc::world::actor;
-use automerge::{AutoCommit, ReadDoc, ROOT};
-use automerge::transaction::{Transactable, CommitOptions};
-
-fn main(){
-    let mut b = AutoCommit::new().with_actor(actor(0x50));
-    b.put(ROOT, "base", 1).unwrap(); b.commit();
-    let mut d0 = b.fork().with_actor(actor(0x10));
-    let mut d1 = b.fork().with_actor(actor(0x90));
-    d0.put(ROOT,"k",1).unwrap(); let e1 = d0.commit().unwrap();
-    let _e2 = d0.empty_change(CommitOptions::default());
-    d0.isolate(&[e1]);
-    d0.put(ROOT,"k",2).unwrap(); let e3 = d0.commit();
-    println!("e3 {:?}", e3);
-    for c in d0.get_changes(&[]) { println!("{} actor {} seq {} start {} deps {:?}", c.hash(), c.actor_id(), c.seq(), c.start_op(), c.deps()); }
-    let r = guard(|| { let mut x = d1.clone(); x.merge(&mut d0.clone()).map(|_| ()) });
-    println!("merge: {:?}", r.map_err(|p| format!("{} {}", p.location, p.message)));
-    let r = guard(|| { let s = d0.clone().save(); automerge::Automerge::load(&s).map(|_| ()) });
-    println!("save/load: {:?}", r.map_err(|p| format!("{} {}", p.location, p.message)));
-    let r = guard(|| { let mut x = d1.clone(); x.apply_changes(d0.clone().get_changes(&[])).map(|_| ()) });
-    println!("apply: {:?}", r.map_err(|p| format!("{} {}", p.location, p.message)));
+use amc::world::*;
+use amc::alphabet::*;
+use automerge::{ReadDoc, TextEncoding};
+fn main(){ second();
+    let enc = TextEncoding::UnicodeCodePoint;
+    let b = base("B1", enc);
+    let mut r0 = b.fork().with_actor(actor(0x10));
+    let mut r1 = b.fork().with_actor(actor(0x90));
+    edit_commit(&mut r0, &Op::Put(Role::T, Key::I(Pos::Mid), Val::Str("w")));
+    edit_commit(&mut r0, &Op::Splice(Role::T, Pos::Start, 0, "a"));
+    edit_commit(&mut r1, &Op::Put(Role::T, Key::I(Pos::Mid), Val::Str("w")));
+    let h1 = r0.get_heads();
+    let mut m = r0.clone(); m.merge(&mut r1.clone()).unwrap();
+    let t = resolve(&m, Role::T).unwrap().0;
+    println!("text {:?} len {}", m.text(&t), m.length(&t));
+    for i in 0..m.length(&t)+1 { println!("{} {:?}", i, m.get_all(&t, i).map(|v| v.iter().map(|(v,id)| format!("{:?}@{}", v, id)).collect::<Vec<_>>())); }
+    println!("at h1: text {:?} len {}", m.text_at(&t, &h1), m.length_at(&t, &h1));
+    let o = amc::obs::observe(&m, None, &[]);
+    println!("{:?}", o.objs.get(&t.to_string()));
+    let f = m.fork();
+    println!("fork text {:?} len {}", f.text(&t), f.length(&t));
+    let l = automerge::Automerge::load(&m.save()).unwrap();
+    println!("load text {:?} len {}", l.text(&t), l.length(&t));
+}
+#[allow(dead_code)]
+pub fn second(){
+    let enc = TextEncoding::UnicodeCodePoint;
+    let b = base("B1", enc);
+    let mut r0 = b.fork().with_actor(actor(0x10));
+    let mut r1 = b.fork().with_actor(actor(0x90));
+    edit_commit(&mut r0, &Op::Put(Role::T, Key::I(Pos::Mid), Val::Str("w")));
+    let ha = r0.get_heads();
+    edit_commit(&mut r0, &Op::Splice(Role::T, Pos::Start, 0, "a"));
+    edit_commit(&mut r1, &Op::Put(Role::T, Key::I(Pos::Mid), Val::Str("w")));
+    let hb = r1.get_heads();
+    let mut m = r0.clone(); m.merge(&mut r1.clone()).unwrap();
+    let t = resolve(&m, Role::T).unwrap().0;
+    let mut h2 = ha.clone(); h2.extend(hb);
+    println!("AT H2: text {:?} len {}", m.text_at(&t, &h2), m.length_at(&t, &h2));
+    for i in 0..5 { println!("{} {:?}", i, m.get_all_at(&t, i, &h2).map(|v| v.iter().map(|(v,id)| format!("{:?}@{}", v, id)).collect::<Vec<_>>())); }
+    let f = m.fork_at(&h2).unwrap();
+    println!("fork_at: text {:?} len {}", f.text(&t), f.length(&t));
+    println!("spans_at {:?}", m.spans_at(&t, &h2).unwrap().collect::<Vec<_>>());
 }
